@@ -11,11 +11,11 @@ impl FromStr for Label {
     type Err = anyhow::Error;
 
     fn from_str(s: &str) -> Result<Self, Self::Err> {
-        Ok(if s.starts_with('α') {
+        Ok(if s.chars().count() == 1 {
+            Self::Greek(s.chars().next().unwrap())
+        } else if s.starts_with('α') {
             let tail: String = s.chars().skip(1).collect::<Vec<_>>().into_iter().collect();
             Self::Alpha(tail.parse::<usize>()?)
-        } else if s.len() == 1 {
-            Self::Greek(s.chars().next().unwrap())
         } else {
             let v: Vec<char> = s.chars().collect();
             let mut a: [char; 8] = [' '; 8];
